@@ -13,6 +13,7 @@ from mc import core
 from refs import timing as rt
 
 ID = "C10"
+LARGE = dict(quick="(changes, queries in one call, metronome): (40,300,4) (300,3000,4) (300,3000,3)", thorough="... and (1200,20000,4) (1200,5000,7)")
 TITLE = "Timing engine: beat positions and millisecond offsets convert consistently"
 RULE = (
     "function enumeration: a state is a distinct (tempo list, initial offset); a transition is one call of TimingMap.offsets/snaps/"
